@@ -4,6 +4,7 @@
 
     admit <model> <config> | ev ; ev ; ...     -> ok <n> | reject <i> [ev] expected: ... | notfinal ...
     states <model> <config>                    -> <number of reachable model states>
+    ask <model> <config> | text                -> model-specific query (e.g. evaluate a pure function)
     configs <model>                            -> space separated configuration names
 -/
 import UnifexModel.Driver.Registry
@@ -27,6 +28,10 @@ def handle (line : String) : String :=
   | ["states", m, c] =>
     match lookup m c with
     | some e => toString (e.states ())
+    | none => s!"bad-op unknown model/config {m}/{c}"
+  | ["ask", m, c] =>
+    match lookup m c with
+    | some e => e.query hist
     | none => s!"bad-op unknown model/config {m}/{c}"
   | ["configs", m] => " ".intercalate (configsOf m)
   | _ => "bad-op"
